@@ -16,6 +16,11 @@ Definition create_allow : list (string * string) :=
   [("dtcwt/lowlevel.py","colfilter"); ("dtcwt/lowlevel.py","rowfilter"); ("dtcwt/lowlevel.py","coldfilt");
    ("dtcwt/lowlevel.py","rowdfilt"); ("dtcwt/lowlevel.py","colifilt"); ("dtcwt/lowlevel.py","rowifilt");
    ("dwt/swt_inverse.py","SWTInverse.forward")].
+(* creation sites with a dtype fixed in the source that are tolerated: the conversion of filters given as lists/arrays instead of
+   tensors in the functional filter banks (never reached from the modules, whose filters are registered tensors; with a float64
+   input the following convolution raises on the dtype mismatch, it does not compute in the wrong precision) *)
+Definition filter_convert_allow : list (string * string) :=
+  [("dwt/lowlevel.py","afb1d"); ("dwt/lowlevel.py","afb1d_atrous"); ("dwt/lowlevel.py","sfb1d"); ("dwt/swt_inverse.py","sfb1d_atrous")].
 Definition pair_mem (f fn:string) (l:list (string*string)) : bool := existsb (fun p => String.eqb f (fst p) && String.eqb fn (snd p)) l.
 
 Definition site_ok (s:site) : bool :=
@@ -27,6 +32,7 @@ Definition site_ok (s:site) : bool :=
   else if String.eqb kind "self_write" then false
   else if String.eqb kind "global_read" then String.eqb detail "get_default_dtype" && is_constructor fn
   else if String.eqb kind "create" then String.eqb prov "dtype" || is_constructor fn || pair_mem file fn create_allow
+                                        || (String.eqb prov "fixed_dtype" && String.eqb detail "tensor" && pair_mem file fn filter_convert_allow)
   else if String.eqb kind "cast" then is_constructor fn
   else if String.eqb kind "decorator" then mem detail ["staticmethod"; "wraps"; "property"]
   else false.
